@@ -39,12 +39,8 @@ LEAN_TARGETS = ["AiuVerif.Props.C09"]
 THEOREMS = [
     "AiuVerif.C09.ids_paired",
     "AiuVerif.C09.placement",
-    "AiuVerif.C09.f_inside_receive",
     "AiuVerif.C09.no_helper_out",
     "AiuVerif.C09.extraction_consumes_helpers",
-    "AiuVerif.C09.detectFinal_perm",
-    "AiuVerif.C09.complete_group_detected",
-    "AiuVerif.C09.every_send_paired_partial",
     "AiuVerif.C09.prefix_final_loses_multicast",
 ]
 RULE = ("stage-level streams: (i) exhaustive histories up to a length bound over a 12-symbol alphabet of helper "
